@@ -5,6 +5,7 @@ import FractopoModel.Spec.SandersonNixon
 import FractopoModel.Spec.Azimuth
 import FractopoModel.Model.Subsampling
 import FractopoModel.Model.Contacts
+import FractopoModel.Model.Relationships
 /-!
 # Model driver: runs the hand-written models and specs (never the regenerated
 definitions, so that it builds whatever the state of /repo) behind a line protocol.
@@ -160,7 +161,16 @@ def arr (a : Args) : Option String := do
     let brs := Arr.branches cs
     let nodeStr := ";".intercalate (nodes.map fun (p, c) => s!"{showPt p}:{c}")
     let brStr := ";".intercalate (brs.map fun b => s!"{enc (Arr.branchClass b)}:{showPt b.1.node}:{showPt b.2.node}")
-    some s!"valid=1 wellformed={showBool wf} nodes={nodeStr} branches={brStr} pieces={showLines r.pieces} source={showNats r.source}"
+    -- X/Y nodes with the pieces through them and the piece ending there (for C12)
+    let evs := (r.events.zipIdx).flatMap fun (es, i) => es.map fun e => (i, e)
+    let xyPts := (nodes.filter fun (_, c) => c == "X" || c == "Y").map (·.1)
+    let xyStr := ";".intercalate (xyPts.map fun p =>
+      let here := evs.filter fun (_, e) => e.p == p
+      let thr := here.map (·.1)
+      let ending := (here.find? fun (_, e) => e.role == .endAbut).map (·.1)
+      let cls := if here.any (fun (_, e) => e.role == .onCross) then "X" else "Y"
+      s!"{showPt p}:{cls}:{showNats thr}:{match ending with | some i => toString i | none => "-"}")
+    some s!"valid=1 wellformed={showBool wf} nodes={nodeStr} branches={brStr} pieces={showLines r.pieces} source={showNats r.source} xy={xyStr}"
 
 /-- `clip areas= traces=`: exact clip pieces per trace -/
 def clip (a : Args) : Option String := do
@@ -175,6 +185,34 @@ def clip (a : Args) : Option String := do
       let p := Pt.lerp a b t
       (rs.any fun (c, d) => onSeg p c d) && !(pcs.any fun pc => (segs pc).any fun (u, v) => onSeg p u v)
   some s!"pieces={"#".intercalate (out.map showLines)} touch={",".intercalate (touch.map showBool)}"
+
+/-- `rel names=a;b sets=<set of piece 0;…> nodes=<cls:through,…:ending|…>`: relationship table -/
+def rel (a : Args) : Option String := do
+  let names := ((a.get? "names").getD "").splitOn ";"
+  let sets := (((a.get? "sets").getD "").splitOn ";").toArray
+  let nodeToks := if ((a.get? "nodes").getD "").isEmpty then [] else ((a.get? "nodes").getD "").splitOn "|"
+  let nodes : List Rel.Node ← nodeToks.mapM fun tok =>
+    match tok.splitOn ":" with
+    | [cls, thr, ending] => do
+      let ts ← parseNats? thr
+      let e := ending.toNat?
+      some { cls := cls
+             touch := fun s => ts.any fun i => sets.getD i "" == s
+             endsIn := fun s => match e with | some i => sets.getD i "" == s | none => false }
+    | _ => none
+  let nonEmpty : String → Bool := fun s => sets.any (· == s)
+  let rows := Rel.table nodes nonEmpty names
+  some s!"rows={"|".intercalate (rows.map fun r => s!"{r.sets.1}~{r.sets.2}:{r.x}:{r.y}:{r.yrev}:{r.errors}")}"
+
+/-- `intersect cls= l1= l2= p1=`: `determine_intersect` of the model -/
+def intersect (a : Args) : Option String := do
+  let cls ← a.get? "cls"
+  let l1 ← (a.get? "l1") >>= parseBool?
+  let l2 ← (a.get? "l2") >>= parseBool?
+  let p1 ← (a.get? "p1") >>= parseBool?
+  some (match Rel.intersectOf cls l1 l2 p1 "A" "B" with
+    | .ok (x, y) => s!"sets={x}{y}"
+    | .error _ => "sets=error")
 
 end Cmd
 
@@ -199,6 +237,8 @@ def dispatch (line : String) : String :=
       | "circle" => Cmd.circle a
       | "arr" => Cmd.arr a
       | "clip" => Cmd.clip a
+      | "rel" => Cmd.rel a
+      | "intersect" => Cmd.intersect a
       | "bweight" => Cmd.bweight a
       | _ => some s!"error=unknown-command:{cmd}"
     r.getD "error=bad-arguments"
